@@ -34,10 +34,20 @@ def spec(method, f, a, b):
 
 
 def gen_rules(tier, seed):
-    for ei, edges in enumerate(EDGES):
+    grids, pars = list(EDGES), [[1.5, 0.25]]
+    if tier == "thorough":          # seeded irregular grids (2 - 12 bins, widths over three orders of magnitude, negative and shifted ranges) and parameter values
+        rng = np.random.RandomState(seed + 13)
+        for _ in range(10):
+            n = int(rng.randint(2, 13))
+            w = 10.0 ** rng.uniform(-2, 1, n)
+            lo = float(rng.uniform(-5, 5))
+            grids.append([round(float(v), 6) for v in lo + np.concatenate([[0.0], np.cumsum(w)])])
+        pars += [[float(rng.uniform(0.1, 3)), float(rng.uniform(-0.4, 0.4))] for _ in range(3)]
+    for ei, edges in enumerate(grids):
         for deg in range(0, 5):
             for method in ("rectangle", "midpoint", "trapezoid", "simpson", "numerical", "antiderivative", "vectorized"):
-                yield {"edges": edges, "deg": deg, "method": method, "pars": [1.5, 0.25]}
+                for pr in pars:
+                    yield {"edges": edges, "deg": deg, "method": method, "pars": pr}
 
 
 def close(a, b, tol=1e-9):
